@@ -262,6 +262,13 @@ type stateCase struct {
 	Reopen []int    `json:"reopen"`
 }
 
+func btoi(b bool) int {
+	if b {
+		return 1
+	}
+	return 0
+}
+
 type blockGen struct {
 	spec  chain.BlockSpec
 	items []string
@@ -276,6 +283,7 @@ func genStateCase(r *hx.RNG) (stateCase, []chain.BlockSpec) {
 	}
 	deployed := map[uint64]bool{}
 	declared := map[uint64]bool{}
+	cur := map[uint64]map[uint64]uint64{} // the generator's view of the non-zero slots
 	var specs []chain.BlockSpec
 	addrs := []uint64{100, 101, 0x1000000000000, 1, 2}
 	nb := 2 + r.Intn(7)
@@ -325,13 +333,30 @@ func genStateCase(r *hx.RNG) (stateCase, []chain.BlockSpec) {
 				continue
 			}
 			m := map[uint64]uint64{}
-			for i := 0; i < 1+r.Intn(3); i++ {
+			if len(cur[a]) > 0 && r.Chance(30) {
+				// wipe: write zero to EVERY non-zero slot of the contract in one block (its storage trie
+				// becomes empty while the contract stays deployed), later blocks touch it again
+				for k := range cur[a] {
+					m[k] = 0
+				}
+			}
+			for i := 0; i < r.Intn(3)+btoi(len(m) == 0); i++ {
 				k := uint64(r.Intn(4))
 				if r.Chance(20) {
 					k = 1<<62 + uint64(r.Intn(2))
 				}
 				v := uint64(r.Intn(4)) // includes writes of zero to absent and present slots
 				m[k] = v
+			}
+			if cur[a] == nil {
+				cur[a] = map[uint64]uint64{}
+			}
+			for k, v := range m {
+				if v == 0 {
+					delete(cur[a], k)
+				} else {
+					cur[a][k] = v
+				}
 			}
 			sp.Storage[a] = m
 			keys := make([]uint64, 0, len(m))
